@@ -32,8 +32,8 @@ func cmpBits(it *Interp, got, want []*Node) (bool, string) {
 		return false, fmt.Sprintf("%d bits instead of %d", len(got), len(want))
 	}
 	for i := range got {
-		if !it.T.Equiv(got[i], want[i]) {
-			return false, fmt.Sprintf("bit %d is %s, specified %s", i, trunc(got[i].String(), 60), trunc(want[i].String(), 60))
+		if !it.EquivUnderPremise(got[i], want[i]) {
+			return false, fmt.Sprintf("bit %d is %s, specified %s", i, trunc(got[i].Short(5), 60), trunc(want[i].Short(5), 60))
 		}
 	}
 	return true, ""
@@ -201,7 +201,7 @@ func checkPlmnDecoders(w *World, r *Report) {
 				for _, b := range d.n3 {
 					all = it.T.And(all, b)
 				}
-				it.Premise = it.T.Not(all)
+				it.AndPremise(it.T.Not(all))
 			}
 			res := it.Call(w.SSAFunc(f), []Value{SliceV{Obj: o, Len: 3}}, st, 0)
 			s, ok := asStr(res)
@@ -249,7 +249,7 @@ func checkPlmnTextGetters(w *World, r *Report) {
 				for _, b := range d.n3 {
 					all = it.T.And(all, b)
 				}
-				it.Premise = it.T.Not(all)
+				it.AndPremise(it.T.Not(all))
 			}
 			return it, st, d, wantPlmnOctets(d)
 		}
@@ -348,6 +348,7 @@ func propC12(w *World, r *Report, tier string) {
 	checkAmfID(w, r)
 	checkGutiOffsets(w, r)
 	checkConvertErrors(w, r)
+	checkGutiRejects(w, r)
 	r.Expect("lay.plmn", 4)
 }
 
@@ -498,6 +499,66 @@ func checkGutiOffsets(w *World, r *Report) {
 			r.OK("lay.guti-offsets")
 		}
 	}
+}
+
+// checkGutiRejects: a GUTI text whose PLMN part holds a character that is not a decimal digit is
+// reported as an error.  Position p carries a fully symbolic octet c, every other position a
+// well-formed character; the nil-ness of the returned error is a Boolean function N of c (ErrV),
+// and N must imply isdigit(c).
+func checkGutiRejects(w *World, r *Report) {
+	f := w.LookupFunc("nasConvert", "GutiToNasWithError")
+	if f == nil {
+		return
+	}
+	fname := FuncName(f)
+	for _, mncLen := range []int{2, 3} {
+		for p := 0; p < 3+mncLen; p++ {
+			r.Site("err.reject.guti")
+			it := NewInterp(w)
+			st := it.NewState()
+			s := StrV{Sym: true}
+			s.Chars = append(s.Chars, it.DigitString("mcc", 3).Chars...)
+			s.Chars = append(s.Chars, it.DigitString("mnc", mncLen).Chars...)
+			c := it.SrcBV("c", 8)
+			s.Chars[p] = c
+			s.Chars = append(s.Chars, it.HexString("amf", 6).Chars...)
+			s.Chars = append(s.Chars, it.HexString("tmsi", 8).Chars...)
+			res := it.Call(w.SSAFunc(f), []Value{s}, st, 0)
+			what := fmt.Sprintf("%d-digit MNC, character %d", mncLen, p)
+			tv, ok := res.(TupleV)
+			var n *Node
+			if ok && len(tv) == 2 {
+				n, ok = it.errNil(tv[1])
+			}
+			if !ok || len(it.Unsup) > 0 {
+				r.Fail("err.reject.guti", fname, what+" undecided", f.Pos(), fmt.Sprintf("the error result is outside the modelled fragment: %v", it.Unsup), nil)
+				continue
+			}
+			hi3 := it.T.And(it.T.And(it.T.Not(c.B[7]), it.T.Not(c.B[6])), it.T.And(c.B[5], c.B[4]))
+			le9 := it.T.Not(it.T.And(c.B[3], it.T.Or(c.B[2], c.B[1])))
+			isd := it.T.And(hi3, le9)
+			// premise and N and not isdigit(c) must be unsatisfiable
+			bad := it.T.And(n, it.T.Not(isd))
+			if it.Premise != nil {
+				bad = it.T.And(it.Premise, bad)
+			}
+			if !it.T.Equiv(bad, it.T.zero) {
+				r.Fail("err.reject.guti", fname, what, f.Pos(), "some octet that is not a decimal digit is accepted at "+what+" of the GUTI text (no error returned)", nil)
+				continue
+			}
+			// and digits are accepted
+			good := it.T.And(it.T.Not(n), isd)
+			if it.Premise != nil {
+				good = it.T.And(it.Premise, good)
+			}
+			if !it.T.Equiv(good, it.T.zero) {
+				r.Fail("err.reject.guti", fname, what+" digit", f.Pos(), "a decimal digit is rejected at "+what, nil)
+				continue
+			}
+			r.OK("err.reject.guti")
+		}
+	}
+	r.Expect("err.reject.guti", 11)
 }
 
 // checkConvertErrors: in the *WithError converters every error produced by strconv / hex and
